@@ -549,7 +549,10 @@ impl Runner {
                 self.world.cache.hot_reload();
                 self.world.barrier_calls += 1;
             } else {
-                std::thread::yield_now();
+                // sleep rather than spin: this loop takes the recorder's lock at every turn, and an unfair mutex
+                // lets a spinning poller starve the reloader thread for as long as it spins (the reloader would
+                // then look asleep with zero CPU to the lost-reload criterion below)
+                std::thread::sleep(std::time::Duration::from_micros(if rounds < 50 { 50 } else { 500 }));
             }
             let evs = self.world.take_events();
             if !evs.is_empty() || !self.world.static_mode {
